@@ -21,4 +21,46 @@ PROPS = {
         "level_text": "Exploration by generated cases: every checkpoint of every generated history is validated top-down like a relying party would and compared with the configuration that krill accepted. It samples the space of histories/configurations (thousands of histories per run) and cannot show absence; it is the right level because the property quantifies over histories of a large stateful system for which an executable oracle (the RP walk) exists.",
         "level_note": "Trusted base: rpki 0.19.2 validation code, the harness' intent model (updated only from accepted operations), the deterministic pump standing in for scheduler::run, the virtual clock. 'Background work has caught up' = no task due, after three rounds of the periodic parent refresh. Two known findings (dangling CA certificates after a departing child) are listed in known_findings.jsonl.",
     },
+    "C02": {
+        "level": "exploration",
+        "cases": {"quick": 1600, "thorough": 30000},
+        "rule": "cases = generated (configuration, hierarchy, history) triples biased to entitlement changes (grow, shrink to partial overlap, "
+        "shrink to nothing, regain), suspend/unsuspend, class-name mappings, two parents and key rolls; distinct by hash of the case JSON; "
+        "non-trivial iff at least one (parent, child, class) exactness comparison was made at a checkpoint AND the history contains an "
+        "entitlement shrink, a shrink followed by a regain, or an unsuspend",
+        "floors": {"__nontrivial__": 0.25, "entitlement_shrunk": 0.30, "shrink_and_regain": 0.10, "child_unsuspended": 0.03},
+        "assumptions": W_ASSUME + ["request limits (RequestResourceLimit) are exercised by C12's signed-message generator, not here"],
+        "technique": "property-based testing of operation histories; oracles: decoded published certificates vs entitlement model (exactness), "
+        "containment check after every publication (never over-claims), metamorphic idempotence (two extra sync rounds change nothing with the clock frozen)",
+        "level_text": "Exploration by generated histories. After every SyncRepo of an issuer the published child certificates are compared with the certificate the issuer holds; "
+        "at every checkpoint (after a bounded number of sync rounds) each child certificate must equal entitlement ∩ issuer resources, no requests may be open, and two further "
+        "sync rounds must leave command histories and repository bytes unchanged. Sampling, not proof; appropriate because the property quantifies over histories.",
+        "level_note": "Trusted base: rpki decoding, the entitlement model (updated from accepted operations only), the pump. Certificates the parent re-issues on its own initiative are only required to be contained (by design of krill) until the convergence step.",
+    },
+    "C03": {
+        "level": "exploration",
+        "cases": {"quick": 1600, "thorough": 30000},
+        "rule": "cases = generated (configuration, hierarchy, history) triples biased to the ways an object stops being current; the check "
+        "records every (issuer key, serial, notAfter, uri, hash) ever observed in the repository (scanned after every SyncRepo task and at checkpoints); "
+        "distinct by hash of the case JSON; non-trivial iff at least two different ways of stopping to be current occurred (configuration removal, "
+        "child removal, suspension, entitlement shrink, parent removal, CA deletion, key activation, forced re-issue, class mapping) AND at least one "
+        "previously seen object was found replaced-and-revoked at a checkpoint",
+        "floors": {"__nontrivial__": 0.40, "keyroll_activate": 0.10, "child_suspended": 0.05, "ca_deleted": 0.03, "parent_removed": 0.02},
+        "assumptions": W_ASSUME + ["objects are identified by (issuer key identifier, serial); manifests and CRLs are excluded as the property says"],
+        "technique": "property-based testing of operation histories with a history invariant: every object ever observed is either still published byte-identical or its serial is on the issuing key's CRL (while that key publishes one and the object is unexpired); plus model-driven absence checks",
+        "level_text": "Exploration by generated histories with a model-free history invariant over all objects ever published, plus absence checks driven by the intent model (no certificate for a non-child key, nothing under a removed class or deleted CA). Sampling, not proof.",
+        "level_note": "Trusted base: rpki decoding of certificates, ROAs, ASPAs and CRLs; the intent model for the absence checks. 'After the next synchronisation' = the checkpoint after convergence.",
+    },
+    "C04": {
+        "level": "exploration",
+        "cases": {"quick": 1600, "thorough": 30000},
+        "rule": "cases = generated (configuration, hierarchy, history) triples with key-roll steps (initiate / activate, also at wrong moments) interleaved with "
+        "configuration changes, entitlement changes, suspensions, partial pumps and held-back trust-anchor signer exchanges; distinct by hash of the case JSON; "
+        "non-trivial iff some class reached the state with a certified new key (RollNew) AND at least one operation other than roll steps and pumps was applied while a roll was in progress",
+        "floors": {"__nontrivial__": 0.25, "roll_under_ta": 0.10, "two_classes_rolling": 0.02, "entitlement_change_during_roll": 0.05},
+        "assumptions": W_ASSUME,
+        "technique": "property-based testing of interleavings of key-roll steps with all other operations; oracles: per-publication invariant 'one key signs the products of a class', payload set equality and RP validity at checkpoints, no panic / would-be exit (catch_unwind + exit hook), completion from every reached state",
+        "level_text": "Exploration by generated histories. After every repository synchronisation the products of each class directory must carry a single issuing key that also publishes a manifest there; at checkpoints the products are under the current key, payloads equal the configuration and the tree is RP-valid; every call is wrapped so a panic or would-be process exit is attributed to the operation; at the end every open roll must finish in the single-active-key state after activation and synchronisation. Interleavings are sampled, not enumerated.",
+        "level_note": "Trusted base: rpki decoding, the pump, the intent model. Commands krill refuses during a roll are accepted as refusals. Rolls of a CA whose parent relation was removed on purpose are not required to finish.",
+    },
 }
